@@ -199,6 +199,22 @@ CLAIMED.update({
         design_ref='DESIGN.md §6 C16'),
 })
 
+CLAIMED.update({
+    'C18': dict(
+        text='Lean 4 model of untar_file over an abstract file-system tree: member-name resolution the way '
+             'tarfile.data_filter does it (realpath with symbolic links followed), the literal makedirs walk, member '
+             'kinds (file, dir, sym, hard, special); theorems: an accepted member resolves inside the destination, an '
+             'accepted link target resolves inside it, special files are always refused, any name with enough leading '
+             '".." is refused, extraction stops at the first refused member, a benign file is extracted. Tied by '
+             'extracting generated archives (escapes by "..", absolute names, links planted by earlier members, FIFOs) '
+             'with the real untar_file in a sandbox and comparing the resulting tree and error family with the model; '
+             'the oracle checks that nothing outside the destination changed.',
+        note=COMMON_NOTE + 'PARTIAL: the kernel path walk and tarfile library are modelled, not verified; archives whose '
+             'hard-link members fall back to copying are reported by the model as unmodelled and checked by the oracle only.',
+        technique='Lean 4 proof on an abstract file-system model of extraction + sandboxed differential extraction',
+        design_ref='DESIGN.md §6 C18'),
+})
+
 NOT_YET = {
 }
 
